@@ -1754,6 +1754,10 @@ impl Model {
     /// Try to solve minimization using specialized optimization algorithms
     /// Returns Some(solution) if optimization succeeds, None if should fall back to search
     fn try_optimization_minimize(&self, objective: &impl View) -> Option<Solution> {
+        // Constraints that are still pending as ASTs are invisible to the router: fall back to search
+        if !self.pending_constraint_asts.is_empty() {
+            return None;
+        }
         #[cfg(selen_verif)]
         if crate::verif_hooks::fast_path_disabled() {
             return None;
@@ -1775,6 +1779,10 @@ impl Model {
     /// Try to solve maximization using specialized optimization algorithms  
     /// Returns Some(solution) if optimization succeeds, None if should fall back to search
     fn try_optimization_maximize(&self, objective: &impl View) -> Option<Solution> {
+        // Constraints that are still pending as ASTs are invisible to the router: fall back to search
+        if !self.pending_constraint_asts.is_empty() {
+            return None;
+        }
         #[cfg(selen_verif)]
         if crate::verif_hooks::fast_path_disabled() {
             return None;
